@@ -390,7 +390,9 @@ void sched_visible(const char* what) {
 }
 
 // ------------------------------------------------------------------ simulated mutexes / once
-struct Mx { int owner = -1; uint32_t vc[MAXTASK] = {0}; };
+struct Mx { int owner = -1; int depth = 0; int readers[MAXTASK] = {0}; int nreaders = 0; uint32_t vc[MAXTASK] = {0}; uint32_t rvc[MAXTASK] = {0}; };
+struct Cv { int waiting[MAXTASK] = {0}; };
+static std::unordered_map<uintptr_t, Cv> g_cv;
 static std::unordered_map<uintptr_t, Mx> g_mx;
 struct Once { int state = 0; int owner = -1; uint32_t vc[MAXTASK] = {0}; };
 static std::unordered_map<uintptr_t, Once> g_once;
@@ -437,41 +439,138 @@ void xs_atomic_post(const volatile void* addr, int kind, int mo) {
     if (it != g_sync.end()) vc_acquire(it->second.vc);
   }
 }
-int xs_pthread_mutex_init(pthread_mutex_t* m, const pthread_mutexattr_t*) { g_mx[(uintptr_t)m] = Mx(); return 0; }
+static bool mx_recursive(pthread_mutex_t* m) { return (m->__data.__kind & 3) == PTHREAD_MUTEX_RECURSIVE_NP; }
+int xs_pthread_mutex_init(pthread_mutex_t* m, const pthread_mutexattr_t* a) { pthread_mutex_init(m, a); g_mx[(uintptr_t)m] = Mx(); return 0; }
 int xs_pthread_mutex_destroy(pthread_mutex_t* m) { g_mx.erase((uintptr_t)m); return 0; }
-int xs_pthread_mutex_lock(pthread_mutex_t* m) {
-  sched_visible("mutex_lock");
-  Mx& x = g_mx[(uintptr_t)m];
+static int mx_lock(uintptr_t key, bool recursive, const char* what) {
+  sched_visible(what);
   int me = me_id();
-  while (x.owner != -1) {
+  for (;;) {
+    Mx& x = g_mx[key];
+    if (x.owner == -1 && x.nreaders == 0) break;
+    if (x.owner == me && recursive) { x.depth++; return 0; }
     if (x.owner == me || !g_threads_mode) {
-      violation("deadlock", SH->cur_fn, "task %d re-locks a mutex it already holds", me);
+      violation("deadlock", SH->cur_fn, "task %d re-locks a non-recursive lock it already holds", me);
       child_exit(0);
     }
-    task_block((uintptr_t)m);
+    task_block(key);
   }
+  Mx& x = g_mx[key];
   x.owner = me;
+  x.depth = 1;
   vc_acquire(x.vc);
+  vc_acquire(x.rvc);
   logf("LOCK t%d", me);
   return 0;
 }
-int xs_pthread_mutex_trylock(pthread_mutex_t* m) {
-  sched_visible("mutex_trylock");
-  Mx& x = g_mx[(uintptr_t)m];
-  if (x.owner != -1) return EBUSY;
-  x.owner = me_id();
+static int mx_trylock(uintptr_t key, bool recursive) {
+  sched_visible("trylock");
+  Mx& x = g_mx[key];
+  int me = me_id();
+  if (x.owner == me && recursive) { x.depth++; return 0; }
+  if (x.owner != -1 || x.nreaders) return EBUSY;
+  x.owner = me;
+  x.depth = 1;
+  vc_acquire(x.vc);
+  vc_acquire(x.rvc);
+  return 0;
+}
+static int mx_unlock(uintptr_t key) {
+  Mx& x = g_mx[key];
+  int me = me_id();
+  if (x.owner == me) {
+    if (--x.depth > 0) return 0;
+    vc_release(x.vc);
+    x.owner = -1;
+  } else if (x.readers[me % MAXTASK] > 0) {
+    x.readers[me % MAXTASK]--;
+    x.nreaders--;
+    vc_release(x.rvc);
+  } else {
+    return EPERM;
+  }
+  wake(key);
+  logf("UNLOCK t%d", me);
+  sched_visible("unlock");
+  return 0;
+}
+static int rw_rdlock(uintptr_t key, bool try_only) {
+  sched_visible("rdlock");
+  int me = me_id();
+  for (;;) {
+    Mx& x = g_mx[key];
+    if (x.owner == -1) break;
+    if (try_only) return EBUSY;
+    if (x.owner == me || !g_threads_mode) {
+      violation("deadlock", SH->cur_fn, "task %d read-locks a lock it holds for writing", me);
+      child_exit(0);
+    }
+    task_block(key);
+  }
+  Mx& x = g_mx[key];
+  x.readers[me % MAXTASK]++;
+  x.nreaders++;
   vc_acquire(x.vc);
   return 0;
 }
-int xs_pthread_mutex_unlock(pthread_mutex_t* m) {
-  Mx& x = g_mx[(uintptr_t)m];
-  vc_release(x.vc);
-  x.owner = -1;
-  wake((uintptr_t)m);
-  logf("UNLOCK t%d", me_id());
-  sched_visible("mutex_unlock");
+int xs_pthread_mutex_lock(pthread_mutex_t* m) { return mx_lock((uintptr_t)m, mx_recursive(m), "mutex_lock"); }
+int xs_pthread_mutex_trylock(pthread_mutex_t* m) { return mx_trylock((uintptr_t)m, mx_recursive(m)); }
+int xs_pthread_mutex_unlock(pthread_mutex_t* m) { return mx_unlock((uintptr_t)m); }
+int xs_pthread_spin_init(pthread_spinlock_t* l, int) { g_mx[(uintptr_t)l] = Mx(); return 0; }
+int xs_pthread_spin_destroy(pthread_spinlock_t* l) { g_mx.erase((uintptr_t)l); return 0; }
+int xs_pthread_spin_lock(pthread_spinlock_t* l) { return mx_lock((uintptr_t)l, false, "spin_lock"); }
+int xs_pthread_spin_trylock(pthread_spinlock_t* l) { return mx_trylock((uintptr_t)l, false); }
+int xs_pthread_spin_unlock(pthread_spinlock_t* l) { return mx_unlock((uintptr_t)l); }
+int xs_pthread_rwlock_init(pthread_rwlock_t* l, const pthread_rwlockattr_t*) { g_mx[(uintptr_t)l] = Mx(); return 0; }
+int xs_pthread_rwlock_destroy(pthread_rwlock_t* l) { g_mx.erase((uintptr_t)l); return 0; }
+int xs_pthread_rwlock_rdlock(pthread_rwlock_t* l) { return rw_rdlock((uintptr_t)l, false); }
+int xs_pthread_rwlock_tryrdlock(pthread_rwlock_t* l) { return rw_rdlock((uintptr_t)l, true); }
+int xs_pthread_rwlock_wrlock(pthread_rwlock_t* l) { return mx_lock((uintptr_t)l, false, "wrlock"); }
+int xs_pthread_rwlock_trywrlock(pthread_rwlock_t* l) { return mx_trylock((uintptr_t)l, false); }
+int xs_pthread_rwlock_unlock(pthread_rwlock_t* l) { return mx_unlock((uintptr_t)l); }
+// C11 <threads.h>
+int xs_mtx_init(void* m, int type) { g_mx[(uintptr_t)m] = Mx(); g_mx[(uintptr_t)m].depth = (type & 1) ? -1000 : 0; return 0; }
+void xs_mtx_destroy(void* m) { g_mx.erase((uintptr_t)m); }
+int xs_mtx_lock(void* m) { mx_lock((uintptr_t)m, true, "mtx_lock"); return 0; }
+int xs_mtx_trylock(void* m) { return mx_trylock((uintptr_t)m, true) == 0 ? 0 : 1; }
+int xs_mtx_unlock(void* m) { mx_unlock((uintptr_t)m); return 0; }
+// condition variables: wait releases the baton; a wait nobody can ever signal is a deadlock
+int xs_pthread_cond_init(pthread_cond_t* c, const pthread_condattr_t*) { g_cv[(uintptr_t)c] = Cv(); return 0; }
+int xs_pthread_cond_destroy(pthread_cond_t* c) { g_cv.erase((uintptr_t)c); return 0; }
+int xs_pthread_cond_wait(pthread_cond_t* c, pthread_mutex_t* m) {
+  int me = me_id();
+  if (!g_threads_mode) {
+    violation("deadlock", SH->cur_fn, "condition wait with a single thread");
+    child_exit(0);
+  }
+  mx_unlock((uintptr_t)m);
+  g_cv[(uintptr_t)c].waiting[me % MAXTASK] = 1;
+  while (g_cv[(uintptr_t)c].waiting[me % MAXTASK]) task_block((uintptr_t)c);
+  return mx_lock((uintptr_t)m, mx_recursive(m), "cond_relock");
+}
+int xs_pthread_cond_timedwait(pthread_cond_t* c, pthread_mutex_t* m, const struct timespec*) {
+  // no simulated clock exists: a timed wait yields once and then reports a timeout unless it was signalled
+  int me = me_id();
+  if (!g_threads_mode) return ETIMEDOUT;
+  mx_unlock((uintptr_t)m);
+  g_cv[(uintptr_t)c].waiting[me % MAXTASK] = 1;
+  sched_visible("cond_timedwait");
+  bool signalled = !g_cv[(uintptr_t)c].waiting[me % MAXTASK];
+  g_cv[(uintptr_t)c].waiting[me % MAXTASK] = 0;
+  mx_lock((uintptr_t)m, mx_recursive(m), "cond_relock");
+  return signalled ? 0 : ETIMEDOUT;
+}
+static int cv_wake(pthread_cond_t* c, bool all) {
+  sched_visible("cond_signal");
+  Cv& v = g_cv[(uintptr_t)c];
+  for (int i = 0; i < MAXTASK; i++)
+    if (v.waiting[i]) { v.waiting[i] = 0; if (!all) break; }
+  wake((uintptr_t)c);
   return 0;
 }
+int xs_pthread_cond_signal(pthread_cond_t* c) { return cv_wake(c, false); }
+int xs_pthread_cond_broadcast(pthread_cond_t* c) { return cv_wake(c, true); }
+void xs_call_once(void* flag, void (*fn)(void));
 int xs_pthread_once(pthread_once_t* c, void (*fn)(void)) {
   sched_visible("once");
   Once& o = g_once[(uintptr_t)c];
@@ -492,4 +591,5 @@ int xs_pthread_once(pthread_once_t* c, void (*fn)(void)) {
   }
   return 0;
 }
+void xs_call_once(void* flag, void (*fn)(void)) { xs_pthread_once((pthread_once_t*)flag, fn); }
 }
